@@ -453,6 +453,70 @@ static int run_c10(uint64_t seed, long from, long to, const char * listfile, lon
     return 0;
 }
 
+// ---------------------------------------------------------------------------------------------------------------- C14
+#ifdef WITH_ALLOC
+#include "alloc.h"
+#endif
+static void c14_sequence(sg::Seq & s, uint64_t seed, long idx) {
+    if (idx < vr::nclasses) {      // a default-constructed object of every class, framed by two populated ones
+        Rng r(Rng::mix(seed ^ 0xC14, (uint64_t)idx));
+        for (int k = 0; k < 3; k++) {
+            const vr::ClassInfo * ci = k == 1 ? &vr::classes[idx] : &vr::classes[r.below(vr::nclasses)];
+            ObjectHeaderBase * o = ci->make(); Obj ob(ci, o);
+            if (k != 1) { ol::GenOpts g; g.populate_inactive = true; g.max_len = 300; ol::randomise(ob, r, g); }
+            s.objs.push_back(o); s.cis.push_back(ci);
+        }
+    } else sg::make_sequence(s, seed, idx, 25, false, 20000);
+}
+static sg::Config c14_config(uint64_t seed, long idx) { sg::Config c = sg::make_config(seed, idx * 31 + 7); if (c.C < 16) c.C = 16 + (uint32_t)(idx % 50); c.tiny_limits = (idx % 3 == 0); return c; }
+
+// c14w: write file <dir>/<idx>.<tag>.blf for idx in [from,to); heap poison pattern applies when built with the ledger
+static int run_c14w(uint64_t seed, long from, long to, const char * dir, const char * tag, unsigned pattern, bool repeat) {
+#ifdef WITH_ALLOC
+    if (pattern <= 0xff) alloc_set_poison(1, (uint8_t)pattern, (uint8_t)~pattern);
+#endif
+    ol::spec_selfcheck();
+    long files = 0, repeats_equal = 0;
+    for (long idx = from; idx < to; idx++) {
+        hc::begin_case(std::to_string(idx));
+        wd::arm(120, "c14-session");
+        sg::Seq s; c14_sequence(s, seed, idx); sg::Config c = c14_config(seed, idx);
+        std::string path = std::string(dir) + "/" + std::to_string(idx) + "." + tag + ".blf";
+        std::string e = write_file(path, s, c);
+        if (!e.empty()) { hc::viol("write-session:" + e, c.str()); continue; }
+        if (repeat) {   // same sequence again in this process after unrelated allocation churn
+            twin::Bytes first = twin::load(path);
+            { std::vector<std::vector<char>> churn; Rng r(idx); for (int i = 0; i < 200; i++) churn.push_back(std::vector<char>(1 + r.below(5000), (char)r.next())); }
+            std::string p2 = path + ".again"; write_file(p2, s, c);
+            twin::Bytes second = twin::load(p2); unlink(p2.c_str());
+            if (first != second) { size_t off = 0; while (off < first.size() && off < second.size() && first[off] == second[off]) off++; hc::viol("differs-on-repetition-in-process", "offset " + std::to_string(off) + " [" + c.str() + "] case=" + std::to_string(idx) + " " + sg::describe_seq(s, 4)); }
+            else repeats_equal++;
+        }
+        // sidecar: object boundaries in the uncompressed stream and class names, for attributing a differing offset
+        std::ofstream m((path + ".meta").c_str());
+        size_t off = 0; m << c.level << " " << c.C << " " << (c.trailer ? 1 : 0) << "\n";
+        for (size_t i = 0; i < s.objs.size(); i++) { std::vector<uint8_t> enc = sg::encode(s.objs[i], s.cis[i]); off += enc.size(); m << s.cis[i]->name << " " << off << "\n"; }
+        files++;
+        wd::disarm();
+    }
+    hc::stat("{\"files\":" + std::to_string(files) + ",\"repetitions_equal\":" + std::to_string(repeats_equal) + "}");
+    return 0;
+}
+// attr: which member produces byte <off> of the encoding of object <obj> of sequence <idx>
+static int run_c14attr(uint64_t seed, long idx, long obj, long off) {
+    sg::Seq s; c14_sequence(s, seed, idx);
+    if (obj >= (long)s.objs.size()) return 2;
+    ObjectHeaderBase * o = s.cis[obj]->clone(s.objs[obj]); Obj ob(s.cis[obj], o);
+    MemFile mf; mf.trace = true; o->write(mf);
+    std::string who = "<not-a-member(padding or temporary)>";
+    for (auto & c : mf.wr) if ((size_t)off >= c.off && (size_t)off < c.off + c.n) {
+        const uint8_t * sp = static_cast<const uint8_t *>(c.src) + (off - c.off);
+        for (auto & f : ob.f) { if (f.variable()) { if (f.nbytes() && sp >= f.data() && sp < f.data() + f.nbytes()) who = f.path; } else { const uint8_t * p = static_cast<const uint8_t *>(f.ptr); if (sp >= p && sp < p + f.elem * f.n) who = f.path; } }
+    }
+    printf("%s\n", who.c_str());
+    delete o; return 0;
+}
+
 int main(int argc, char ** argv) {
     hc::out_init();
     if (argc < 3) return 2;
@@ -467,6 +531,8 @@ int main(int argc, char ** argv) {
     if (mode == "gen") return run_gen(seed, from, to, argv[5], atol(argv[6]));
     if (mode == "c05r") return run_c05r(from, to, argv[5]);
     if (mode == "ids") return run_ids(from, to, argv[5]);
+    if (mode == "c14w") return run_c14w(seed, from, to, argv[5], argv[6], (unsigned)strtoul(argv[7], nullptr, 16), argc > 8 && atoi(argv[8]));
+    if (mode == "c14attr") return run_c14attr(seed, from, to, atol(argv[5]));
     if (mode == "c10") return run_c10(seed, from, to, argv[5], atol(argv[6]), false);
     if (mode == "c10count") return run_c10(seed, 0, 0, argv[5], atol(argv[6]), true);
     if (mode == "c08") return run_c08(seed, from, to, atoi(argv[5]), false);
